@@ -556,12 +556,14 @@ def c13(pid, tier, seed):
         nm = "d" if d else "u"
         sets += [T("t-rt-%s-none" % nm, d, "none", "roundtrip", maxn=3, maxedges=3 if q else 4),
                  T("t-rt-%s-string" % nm, d, "string", "roundtrip", maxn=3, maxedges=2 if q else 3),
-                 T("t-rt-%s-int" % nm, d, "int", "roundtrip", maxn=3 if not d else 2, maxedges=2 if q else 3)]
+                 T("t-rt-%s-int" % nm, d, "int", "roundtrip", maxn=3 if not d else 2, maxedges=2 if q else 3),
+                 T("t-rt-%s-char" % nm, d, "char", "roundtrip", maxn=2, maxedges=2 if q else 3)]
     sets += [T("t-load1-full", True, "string", "load", maxedges=1, lineset="full"),
              T("t-load1-full-u-none", False, "none", "load", maxedges=1, lineset="full"),
              T("t-load2-small", False, "int", "load", maxedges=2, lineset="small" if not q else "tiny"),
              T("t-named3", True, "string", "named", maxedges=3 if not q else 2, lineset="tiny"),
-             T("t-named1-full", False, "none", "named", maxedges=1, lineset="full")]
+             T("t-named1-full", False, "none", "named", maxedges=1, lineset="full"),
+             T("t-load1-char", True, "char", "load", maxedges=1, lineset="tiny")]
     if not q:
         sets += [T("t-load3-tiny", True, "string", "load", maxedges=3, lineset="tiny"),
                  T("t-named2-small", True, "int", "named", maxedges=2, lineset="small")]
